@@ -549,23 +549,51 @@ func (m *Machine) concIndex(v *term.T, signed bool, n int, site string) (int, bo
 		}
 		return int(x), true
 	}
-	if n > m.cfg.MaxFanout {
-		m.unsupported(fmt.Sprintf("symbolic index over %d alternatives at %s", n, site))
+	lo, hi := 0, n-1
+	needOOR := true
+	if v.ROK {
+		// the structural value range bounds the enumeration
+		if v.RLo > int64(hi) || v.RHi < 0 {
+			return 0, false
+		}
+		if v.RLo > 0 {
+			lo = int(v.RLo)
+		}
+		if v.RHi < int64(hi) {
+			hi = int(v.RHi)
+		}
+		needOOR = v.RLo < 0 || v.RHi > int64(n-1)
+	}
+	if hi-lo+1 > m.cfg.MaxFanout {
+		m.unsupported(fmt.Sprintf("symbolic index over %d alternatives at %s", hi-lo+1, site))
 	}
 	w := int(v.S.W)
-	conds := make([]*term.T, 0, n+1)
+	conds := make([]*term.T, 0, hi-lo+2)
 	oor := m.tb.True()
-	for i := 0; i < n; i++ {
+	for i := lo; i <= hi; i++ {
+		if w < 64 {
+			lim := uint64(1) << uint(w)
+			if signed {
+				lim >>= 1
+			}
+			if uint64(i) >= lim {
+				break
+			}
+		}
 		c := m.tb.Eq(v, m.tb.BV(w, uint64(i)))
 		conds = append(conds, c)
 		oor = m.tb.And(oor, m.tb.Not(c))
 	}
+	if !needOOR {
+		k := m.decide(site, conds)
+		return lo + k, true
+	}
 	conds = append(conds, oor)
 	k := m.decide(site, conds)
-	if k == n {
+	if k == len(conds)-1 {
 		return 0, false
 	}
-	return k, true
+	return lo + k, true
 }
 
 func (m *Machine) visitInstr(fr *frame, instr ssa.Instruction) continuation {
@@ -638,7 +666,19 @@ func (m *Machine) visitInstr(fr *frame, instr ssa.Instruction) continuation {
 		m.chanSend(m.get(fr, instr.Chan).(*Chan), m.get(fr, instr.X))
 
 	case *ssa.Store:
-		m.store(m.get(fr, instr.Addr).(*Value), m.get(fr, instr.Val))
+		switch addr := m.get(fr, instr.Addr).(type) {
+		case *Value:
+			m.store(addr, m.get(fr, instr.Val))
+		case *SymPtr:
+			v := m.get(fr, instr.Val).(*term.T)
+			w := int(addr.idx.S.W)
+			for i := range addr.arr {
+				old := addr.arr[i].(*term.T)
+				m.set(&addr.arr[i], m.tb.Ite(m.tb.Eq(addr.idx, m.tb.BV(w, uint64(i))), v, old))
+			}
+		default:
+			panic(fmt.Sprintf("store through %T", addr))
+		}
 
 	case *ssa.If:
 		c := m.get(fr, instr.Cond).(*term.T)
@@ -732,26 +772,31 @@ func (m *Machine) visitInstr(fr *frame, instr ssa.Instruction) continuation {
 		x := m.get(fr, instr.X)
 		idx := m.get(fr, instr.Index).(*term.T)
 		sg := isSigned(instr.Index.Type())
+		var elems []Value
 		switch x := x.(type) {
 		case []Value:
-			i, ok := m.concIndex(idx, sg, len(x), "indexaddr")
-			if !ok {
-				m.runtimePanic(fmt.Sprintf("index out of range [%s] with length %d", m.show(idx), len(x)))
-			}
-			fr.env[instr] = &x[i]
+			elems = x
 		case *Value:
 			if x == nil {
 				m.runtimePanic("invalid memory address or nil pointer dereference")
 			}
-			a := (*x).(Array)
-			i, ok := m.concIndex(idx, sg, len(a), "indexaddr")
-			if !ok {
-				m.runtimePanic(fmt.Sprintf("index out of range [%s] with length %d", m.show(idx), len(a)))
-			}
-			fr.env[instr] = &a[i]
+			elems = []Value((*x).(Array))
 		default:
 			panic(fmt.Sprintf("unexpected x type in IndexAddr: %T", x))
 		}
+		if !idx.IsConst() && len(elems) > 1 && len(elems) <= 1024 && allScalar(elems) {
+			// symbolic element address of a scalar array: loads become ite chains
+			if !m.condBool(m.inRange(idx, sg, len(elems)), "index-range") {
+				m.runtimePanic(fmt.Sprintf("index out of range [symbolic] with length %d", len(elems)))
+			}
+			fr.env[instr] = &SymPtr{arr: elems, idx: idx}
+			break
+		}
+		i, ok := m.concIndex(idx, sg, len(elems), "indexaddr")
+		if !ok {
+			m.runtimePanic(fmt.Sprintf("index out of range [%s] with length %d", m.show(idx), len(elems)))
+		}
+		fr.env[instr] = &elems[i]
 
 	case *ssa.Index:
 		x := m.get(fr, instr.X)
@@ -819,6 +864,34 @@ func (m *Machine) visitInstr(fr *frame, instr ssa.Instruction) continuation {
 	return kNext
 }
 
+// SymPtr is the address of arr[idx] for a symbolic, in-range idx over scalar elements.
+type SymPtr struct {
+	arr []Value
+	idx *term.T
+}
+
+// inRange is the Bool term 0 <= idx < n (idx of any width and signedness).
+func (m *Machine) inRange(idx *term.T, signed bool, n int) *term.T {
+	wide := idx
+	if idx.S.W < 64 {
+		if signed {
+			wide = m.tb.SExt(idx, 64)
+		} else {
+			wide = m.tb.ZExt(idx, 64)
+		}
+	}
+	return m.tb.ULt(wide, m.tb.BV(64, uint64(n)))
+}
+
+func allScalar(x []Value) bool {
+	for _, e := range x {
+		if _, ok := e.(*term.T); !ok {
+			return false
+		}
+	}
+	return true
+}
+
 func (m *Machine) makeTooBig(n *term.T, what string) {
 	// negative or larger than the configured allocation bound
 	if n.IsConst() && n.Int() >= 0 && n.Int() <= 1<<40 {
@@ -875,8 +948,7 @@ func (m *Machine) indexReadBytes(x []*term.T, idx *term.T, signed bool) *term.T 
 		return x[i]
 	}
 	w := int(idx.S.W)
-	inRange := m.tb.ULt(idx, m.tb.BV(w, uint64(len(x))))
-	if !m.condBool(inRange, "index-range") {
+	if !m.condBool(m.inRange(idx, signed, len(x)), "index-range") {
 		m.runtimePanic(fmt.Sprintf("index out of range [symbolic] with length %d", len(x)))
 	}
 	if len(x) > 1024 {
